@@ -414,7 +414,9 @@ glyphLoop:
 						})
 					}
 					inFlex = false
-					postscriptStack = postscriptStack[:len(postscriptStack)-1]
+					if len(postscriptStack) > 0 {
+						postscriptStack = postscriptStack[:len(postscriptStack)-1]
+					}
 				case 1: // flex start (0 args)
 					flexData = flexData[:0]
 					inFlex = true
